@@ -100,6 +100,7 @@ struct MQuery
 
 struct Model
 {
+    bool old_syntax{false};  // UPPAAL 3.x syntax: to be parsed with newxta == false
     std::vector<MDecl> gdecls;
     std::vector<MTempl> templs;
     std::vector<MInst> insts;
@@ -137,6 +138,9 @@ struct GenCfg
 /** swarm: draw a configuration */
 GenCfg draw_cfg(Rng& rng);
 Model gen_model(Rng& rng, const GenCfg& cfg);
+/** a model in the old (3.x) syntax: "const N 5;", parameters separated by ';' (non-const ones are references), guards and
+ *  invariants as comma-separated conjunct lists, ':=' assignments; no selects, functions, branchpoints, probabilities */
+Model gen_old_model(Rng& rng);
 
 /** serialisation knobs for the XML renderer (class-B "equivalent serialisations") */
 struct XmlKnobs
